@@ -48,6 +48,11 @@ type scenario struct {
 	Ep      string      `json:"ep"`
 	Hdr     string      `json:"hdr"`
 	Allowed []predicted `json:"allowed"`
+	// round 2: the same request after the node that served round 1 (R1Proc) re-registered as ChgType
+	Round   int `json:"round"`
+	R1Proc  int `json:"r1proc"`
+	ChgNode int `json:"chgnode"`
+	ChgType int `json:"chgtype"`
 }
 
 type finding struct {
@@ -64,6 +69,8 @@ type result struct {
 	PerEp      map[string]int `json:"per_ep"`
 	Skipped    map[string]int `json:"skipped_endpoints"`
 	Targets    int            `json:"distinct_forward_targets_seen"`
+	Round2     int            `json:"round2_scenarios"`
+	Unrealised int            `json:"round2_unrealised"`
 	Retries    int            `json:"transport_retries"`
 	Unjudged   int            `json:"unjudged_requests"`
 	Violations []finding      `json:"violations"`
@@ -348,8 +355,39 @@ func run(scenPath string, repeat int, res *result) error {
 		if n < 1 || n > maxSlots {
 			return fmt.Errorf("scenario with %d nodes", n)
 		}
+		nodes := sc.Nodes
 		key := fmt.Sprint(sc.Nodes)
-		if key != lastCfg {
+		if sc.Round == 2 {
+			if !usable[sc.Ep] {
+				continue
+			}
+			// round 1 on fresh routers until the nondeterministic target is the one of the scenario,
+			// then the registries change IN PLACE (routers stay alive) and the request is sent again
+			rq1, _ := mkRequest(sc.Ep)
+			realised := false
+			for try := 0; try < 6 && !realised; try++ {
+				cl := configure(slots, sc.Nodes, tr, logger)
+				st1, _, err := doArrowSafe(client, slots[1], rq1, sc.Ep, markerOf(sc.Hdr), res, !anyDown(sc.Nodes))
+				ch := collapseRetries(takeEvents())
+				for i := 1; i <= maxSlots; i++ {
+					_ = slots[i].buf.FlushAll(context.Background())
+					slots[i].store.take()
+				}
+				if err == nil && st1 < 300 && len(ch) == 2 && ch[1].Node == sc.R1Proc {
+					nodes = append([]int(nil), sc.Nodes...)
+					nodes[sc.ChgNode-1] = sc.ChgType
+					reconfigure(slots, cl, nodes, sc.ChgNode, tr, logger)
+					realised = true
+				}
+			}
+			lastCfg = ""
+			if !realised {
+				res.Unrealised++
+				continue
+			}
+			res.Round2++
+			key = fmt.Sprintf("%v>%d:%d", sc.Nodes, sc.ChgNode, sc.ChgType)
+		} else if key != lastCfg {
 			configure(slots, sc.Nodes, tr, logger)
 			lastCfg = key
 		}
@@ -361,29 +399,21 @@ func run(scenPath string, repeat int, res *result) error {
 			continue
 		}
 		res.Scenarios++
-		hdrVal := ""
-		switch sc.Hdr {
-		case "junk":
-			hdrVal = "not-a-node"
-		case "self":
-			hdrVal = "n1"
-		case "peer":
-			hdrVal = "n2"
-		}
+		hdrVal := markerOf(sc.Hdr)
 		for rep := 0; rep < repeat; rep++ {
 			// The Arrow stream handler intermittently answers with a corrupted status line
 			// ("0TTP/1.1"; also seen over real TCP loopback).  Such a transport-level failure --
 			// seen by the test client as an error, or by a forwarding router as 502 after its own
 			// retry -- is never judged: the request is repeated and, if it keeps failing, counted
 			// as unjudged.
-			st, body, err := doArrowSafe(client, slots[1], rq, sc.Ep, hdrVal, res, !anyDown(sc.Nodes))
+			st, body, err := doArrowSafe(client, slots[1], rq, sc.Ep, hdrVal, res, !anyDown(nodes))
 			if err != nil && sc.Ep == "arrow" {
 				takeEvents()
 				res.Unjudged++
 				continue
 			}
 			if err != nil {
-				return fmt.Errorf("request failed (%v %s %s): %w", sc.Nodes, sc.Ep, sc.Hdr, err)
+				return fmt.Errorf("request failed (%v %s %s): %w", nodes, sc.Ep, sc.Hdr, err)
 			}
 			res.Requests++
 			res.PerEp[sc.Ep]++
@@ -415,7 +445,7 @@ func run(scenPath string, repeat int, res *result) error {
 					procs = append(procs, chain[len(chain)-1].Node)
 				}
 			}
-			obs := map[string]interface{}{"nodes": describe(sc.Nodes), "endpoint": sc.Ep, "client_marker": sc.Hdr,
+			obs := map[string]interface{}{"nodes": describe(nodes), "endpoint": sc.Ep, "client_marker": sc.Hdr, "round": sc.Round, "reregistered": reregDesc(sc),
 				"status": st, "chain": chain, "processed_by": procs}
 			if len(res.Samples) < 6 && len(chain) > 1 {
 				res.Samples = append(res.Samples, obs)
@@ -448,13 +478,17 @@ func run(scenPath string, repeat int, res *result) error {
 					res.Drift = append(res.Drift, finding{sig, obs})
 				}
 			}
-			entryKind := kindOf(sc.Nodes[0])
+			entryKind := kindOf(nodes[0])
 			// --- the property, judged on the observation
 			if hops > 1 {
 				addV(fmt.Sprintf("forwarded-more-than-once:%s:hops=%d", class, hops))
 			}
+			if chain[0].FwdBy != "" && hops >= 1 {
+				// the request arrived carrying the forwarded-by marker and was forwarded all the same
+				addV(fmt.Sprintf("marked-request-forwarded-again:%s:marker=%s", class, sc.Hdr))
+			}
 			for _, p := range procs {
-				k := kindOf(sc.Nodes[p-1])
+				k := kindOf(nodes[p-1])
 				if !capable(k, isW) {
 					how := "received-directly"
 					if p != 1 {
@@ -474,7 +508,7 @@ func run(scenPath string, repeat int, res *result) error {
 				}
 			}
 			for h := 1; h < len(chain); h++ {
-				tk := kindOf(sc.Nodes[chain[h].Node-1])
+				tk := kindOf(nodes[chain[h].Node-1])
 				if !capable(tk, isW) {
 					addV(fmt.Sprintf("forwarded-to-incapable-peer:%s:role=%s", class, roleOf(tk)))
 				}
@@ -483,12 +517,12 @@ func run(scenPath string, repeat int, res *result) error {
 				}
 				targetsSeen[fmt.Sprintf("%s>%d", key, chain[h].Node)] = true
 			}
-			if hops == 1 && (len(procs) != 1 || procs[0] != chain[1].Node) && capable(kindOf(sc.Nodes[chain[1].Node-1]), isW) {
+			if hops == 1 && (len(procs) != 1 || procs[0] != chain[1].Node) && capable(kindOf(nodes[chain[1].Node-1]), isW) {
 				addV(fmt.Sprintf("forwarded-request-not-served-by-capable-target:%s:%s:status=%d", class, sc.Ep, st))
 			}
 			// entry cannot serve, the client sent no marker, a healthy capable peer is registered,
 			// and yet nothing was forwarded
-			if !capable(entryKind, isW) && sc.Hdr == "none" && hops == 0 && len(procs) == 0 && hasTarget(sc.Nodes, isW) {
+			if !capable(entryKind, isW) && sc.Hdr == "none" && hops == 0 && len(procs) == 0 && hasTarget(nodes, isW) {
 				addV(fmt.Sprintf("not-forwarded-although-capable-peer-registered:%s:%s:status=%d", class, sc.Ep, st))
 			}
 			// --- drift against the TLC prediction
@@ -606,47 +640,99 @@ func takeEvents() []event {
 	return e
 }
 
-// configure gives every node of the configuration its own registry view and router.
-func configure(slots []*slot, nodes []int, tr *http.Transport, logger zerolog.Logger) {
-	mk := func(i int) *cluster.Node {
-		t := nodes[i-1]
-		k := kindOf(t)
-		nd := cluster.NewNode(slots[i].id, slots[i].id, roleOf(k), "verif")
-		nd.APIAddress = slots[i].addr
-		nd.Address = fmt.Sprintf("n%d.verif:9100", i)
-		if healthy(t) {
-			nd.State = cluster.StateHealthy
-		} else {
-			nd.State = cluster.StateUnhealthy
-		}
-		switch k {
-		case "wp":
-			nd.WriterSt = cluster.WriterStatePrimary
-		case "ws":
-			nd.WriterSt = cluster.WriterStateStandby
-		}
-		return nd
+func markerOf(h string) string {
+	switch h {
+	case "junk":
+		return "not-a-node"
+	case "self":
+		return "n1"
+	case "peer":
+		return "n2"
 	}
+	return ""
+}
+
+func reregDesc(sc *scenario) string {
+	if sc.Round != 2 {
+		return ""
+	}
+	return fmt.Sprintf("after a first identical request served by n%d, n%d re-registered as %s", sc.R1Proc, sc.ChgNode,
+		describe([]int{sc.ChgType})[0][3:])
+}
+
+type clusterState struct {
+	regs    []*cluster.Registry
+	routers []*cluster.Router
+}
+
+func mkNode(slots []*slot, nodes []int, i int) *cluster.Node {
+	t := nodes[i-1]
+	k := kindOf(t)
+	nd := cluster.NewNode(slots[i].id, slots[i].id, roleOf(k), "verif")
+	nd.APIAddress = slots[i].addr
+	nd.Address = fmt.Sprintf("n%d.verif:9100", i)
+	if healthy(t) {
+		nd.State = cluster.StateHealthy
+	} else {
+		nd.State = cluster.StateUnhealthy
+	}
+	switch k {
+	case "wp":
+		nd.WriterSt = cluster.WriterStatePrimary
+	case "ws":
+		nd.WriterSt = cluster.WriterStateStandby
+	}
+	return nd
+}
+
+func setDead(slots []*slot, nodes []int, tr *http.Transport) {
 	// pooled keep-alive connections of the previous configuration must not reach a node that is down now
 	tr.CloseIdleConnections()
 	for i := 1; i < len(slots); i++ {
 		slots[i].dead.Store(i <= len(nodes) && !reachable(nodes[i-1]))
 	}
+}
+
+func buildNode(slots []*slot, nodes []int, i int, cl *clusterState, tr *http.Transport, logger zerolog.Logger) {
+	if i > len(nodes) || kindOf(nodes[i-1]) == "nr" {
+		slots[i].setRouter(nil)
+		cl.regs[i], cl.routers[i] = nil, nil
+		return
+	}
+	local := mkNode(slots, nodes, i)
+	reg := cluster.NewRegistry(&cluster.RegistryConfig{LocalNode: local, Logger: logger})
+	for j := 1; j <= len(nodes); j++ {
+		if j != i {
+			_ = reg.Register(mkNode(slots, nodes, j))
+		}
+	}
+	r := cluster.NewRouter(&cluster.RouterConfig{Timeout: 30 * time.Second, Retries: 2, Registry: reg,
+		LocalNode: local, Logger: logger, Transport: tr})
+	slots[i].setRouter(r)
+	cl.regs[i], cl.routers[i] = reg, r
+}
+
+// configure gives every node of the configuration its own registry view and a fresh router.
+func configure(slots []*slot, nodes []int, tr *http.Transport, logger zerolog.Logger) *clusterState {
+	cl := &clusterState{regs: make([]*cluster.Registry, len(slots)), routers: make([]*cluster.Router, len(slots))}
+	setDead(slots, nodes, tr)
 	for i := 1; i < len(slots); i++ {
-		if i > len(nodes) || kindOf(nodes[i-1]) == "nr" {
-			slots[i].setRouter(nil)
-			continue
+		buildNode(slots, nodes, i, cl, tr, logger)
+	}
+	return cl
+}
+
+// reconfigure applies "node chg re-registered with its new role / writer state / health" to the LIVE
+// cluster: every other node keeps its registry and router instance and just sees the re-registration
+// (Registry.Register with the same id); the changed node itself restarts (fresh registry and router).
+func reconfigure(slots []*slot, cl *clusterState, nodes []int, chg int, tr *http.Transport, logger zerolog.Logger) {
+	setDead(slots, nodes, tr)
+	for i := 1; i <= len(nodes); i++ {
+		if i == chg {
+			buildNode(slots, nodes, i, cl, tr, logger)
+		} else if cl.regs[i] != nil {
+			_ = cl.regs[i].Register(mkNode(slots, nodes, chg))
 		}
-		local := mk(i)
-		reg := cluster.NewRegistry(&cluster.RegistryConfig{LocalNode: local, Logger: logger})
-		for j := 1; j <= len(nodes); j++ {
-			if j != i {
-				_ = reg.Register(mk(j))
-			}
-		}
-		r := cluster.NewRouter(&cluster.RouterConfig{Timeout: 30 * time.Second, Retries: 2, Registry: reg,
-			LocalNode: local, Logger: logger, Transport: tr})
-		slots[i].setRouter(r)
 	}
 }
 
